@@ -767,9 +767,12 @@ class HTTPConnectionPool(ConnectionPool, RequestMethods):
         # for future rewinds in the event of a redirect/retry.
         body_pos = set_file_position(body, body_pos)
 
+        # An invalid timeout must be reported before a connection slot is taken:
+        # the cleanup below gives a slot back and none has been taken yet.
+        timeout_obj = self._get_timeout(timeout)
+
         try:
             # Request a connection from the queue.
-            timeout_obj = self._get_timeout(timeout)
             conn = self._get_conn(timeout=pool_timeout)
 
             conn.timeout = timeout_obj.connect_timeout  # type: ignore[assignment]
